@@ -7,7 +7,7 @@ CLAUSES = {
     "count": "every step releases exactly the scheduled number of particles (mult copies per row)",
     "values": "new particles carry the row's position and extra columns, in file-row order, with consecutive pids",
     "total": "total_particle_count equals the number of particles scheduled in [start, stop) (rows exactly at stop may or may not be counted)",
-    "lonlat": "rows given by lon/lat start at grid.ll2xy(lon, lat)",
+    "lonlat": "rows given by lon/lat start at grid.ll2xy(lon, lat) (an affine stand-in, and the real ROMS Grid.ll2xy on wide and tall affine grids)",
     "typed-columns": "an integer extra column and the time-typed release_time variable arrive unchanged (release_time = the row's release time, per particle)",
 }
 BOUNDS = {
@@ -35,6 +35,9 @@ def scenarios(tier):
                 out.append(dict(name=f"continuous-R{R}-f{f}-N{N}-{'rev' if rev else 'fwd'}", fn="run", params=dict(R=R, N=N, rev=rev, cont=f, mmax=2, names=False), cost=R ** 3 * N * 2))
     out.append(dict(name="names-in-config", fn="run", params=dict(R=2, N=3, rev=False, cont=0, mmax=1, names=True), cost=5))
     out.append(dict(name="lonlat", fn="run", params=dict(R=2, N=3, rev=False, cont=0, mmax=1, names=False, lonlat=True), cost=5))
+    # the same through the real ROMS Grid.ll2xy (inverse bilinear interpolation) on a wide and on a tall affine grid
+    out.append(dict(name="lonlat-roms-wide", fn="run", params=dict(R=2, N=3, rev=False, cont=0, mmax=1, names=False, lonlat=True, roms=(9, 5)), cost=10))
+    out.append(dict(name="lonlat-roms-tall", fn="run", params=dict(R=2, N=3, rev=False, cont=0, mmax=1, names=False, lonlat=True, roms=(5, 9)), cost=10))
     return out
 
 
@@ -80,7 +83,23 @@ def run(W, p):
     W.table(path, cols, rows, header=not p["names"])
     timer = tk.TimeKeeper(start=W.dt(START), stop=W.dt(START + sgn * N * DT), dt=DT, time_reversal=rev)
     S = st.State(instance_variables=dict(tag=float, farm=int), particle_variables=dict(release_time="time"))
-    mods = dict(time=timer, grid=_AffineGrid(W) if lonlat else None, state=S)
+    grid = _AffineGrid(W) if lonlat else None
+    if p.get("roms"):
+        # real ROMS grid with lon = 4 + 2 i, lat = 60 + j / 4 (the same affine map as the stand-in); rows pinned inside cells
+        # towards the far end of the longer side (one Newton step is exact on an affine grid)
+        from harness import romsfile
+
+        Lr, Mr = p["roms"]
+        ones = [[1] * Lr for _ in range(Mr)]
+        gs = romsfile.grid_vars(Lr, Mr, 2, h=[[100] * Lr for _ in range(Mr)], mask=ones, pm=[[W.frac(1, 800)] * Lr for _ in range(Mr)], pn=[[W.frac(1, 800)] * Lr for _ in range(Mr)])
+        romsfile.write(W, tmp / "grid.nc", gs)
+        grid = W.load("ladim.ROMS").Grid(filename=str(tmp / "grid.nc"))
+        cells = [(Lr - 3, Mr - 3), (2, 1)]
+        for i in range(R):
+            cx, cy = cells[i % 2]
+            gx, gy = (xs[i] - 4) / 2, (ys[i] - 60) * 4
+            W.assume(W.all([W.lt(cx + W.frac(1, 10), gx), W.lt(gx, cx + W.frac(9, 10)), W.lt(cy + W.frac(1, 10), gy), W.lt(gy, cy + W.frac(9, 10))]), "lon/lat rows pinned inside a grid cell")
+    mods = dict(time=timer, grid=grid, state=S)
     kw = {}
     if cont:
         kw.update(continuous=True, release_frequency=cont * DT)
